@@ -231,7 +231,7 @@ def table(update_design=False):
         res = json.load(open(os.path.join(d, "result.json"))) if os.path.exists(os.path.join(d, "result.json")) else {"checks": {}}
         caught = [p for p, r in res["checks"].items() if r.get("caught")]
         silent = [p for p, r in res["checks"].items() if not r.get("caught")]
-        silent = [("**%s MISSED**" % p) if p == meta.get("property") else p for p in silent]
+        silent = [("**%s MISSED**" % p) if (p == meta.get("property") and not meta.get("thorough_only")) else (p + " (quick; thorough catches)" if p == meta.get("property") else p) for p in silent]
         first = ""
         own = res["checks"].get(meta.get("property"), {})
         if own.get("violations"):
